@@ -35,7 +35,7 @@ def cases(tier, seed):
         for after in (False, True):
             for g in (['naive'] if cl == 'orderbook' else (GRIDS if tier == 'thorough' or cl in ('contract_dicts',) else ['naive'])):
                 out.append(('%s_%s_%s' % (cl, 'after_setup' if after else 'fresh', g), dict(kind='asset', cls=cl, after=after, grid=g)))
-    for g in ('naive', 'cet', 'cet_dst_repeated_hour', 'us_eastern'):
+    for g in ('naive', 'cet', 'cet_dst_repeated_hour', 'us_eastern', 'day_unit', 'quarter_hours_minute_unit_cet'):
         if tier != 'thorough' and g == 'us_eastern':
             continue
         out.append(('portfolio_with_grid_%s' % g, dict(kind='portfolio', grid=g)))
@@ -54,6 +54,10 @@ def mk_grid(g):
         return eao.assets.Timegrid(shapes.T0, shapes.T0 + dt.timedelta(hours=T), freq='h', timezone='CET')
     if g == 'us_eastern':
         return eao.assets.Timegrid(shapes.T0, shapes.T0 + dt.timedelta(hours=T), freq='h', timezone='US/Eastern')
+    if g == 'day_unit':        # main time unit 'd': rates per day -- the loaded grid must keep the unit
+        return eao.assets.Timegrid(shapes.T0, shapes.T0 + dt.timedelta(hours=T), freq='h', main_time_unit='d')
+    if g == 'quarter_hours_minute_unit_cet':
+        return eao.assets.Timegrid(shapes.T0, shapes.T0 + dt.timedelta(minutes=15 * T), freq='15min', main_time_unit='min', timezone='CET')
     if g == 'cet_dst_repeated_hour':
         s = pd.Timestamp('2021-10-31 01:00', tz='UTC')         # = 02:00+01:00, the second 02:00 of that night
         return eao.assets.Timegrid(s.tz_convert('CET'), (s + pd.Timedelta(hours=T)).tz_convert('CET'), freq='h', timezone='CET')
@@ -199,7 +203,7 @@ def portfolio_scenario(D, grid):
     nA, nB = shapes.nodes('A', 'B')
     ct = eao.assets.Contract(name='ct', nodes=nA, price='p', min_cap=D('min', hi=0), max_cap=D('max', lo=0),
                              min_take={'start': [h(0)], 'end': [h(3)], 'values': [D('mintake', hi=0)]})
-    if grid == 'cet_dst_repeated_hour':
+    if grid in ('cet_dst_repeated_hour', 'quarter_hours_minute_unit_cet'):
         ct.min_take = None
     st = shapes.mk_storage(D, 'sto', nA, eff=0.75)
     pf = eao.portfolio.Portfolio([ct, st])
